@@ -79,11 +79,106 @@ def _concretize_index(idx):
     return idx
 
 
+# ------------------------------------------------------------------------------------------------
+# Opt-in "logical dtype" mode (off by default; a harness switches it on inside its forked worker).
+# Object arrays forget whether they stand for float64 or complex128 data.  With the mode on,
+#   * SymArray.dtype is still the object dtype (== object, kind 'O') but carries the logical kind
+#     ('f' / 'c', derived from the content) as dtype metadata, which npshim.result_type and the shimmed
+#     creation functions read, so `np.result_type(self.dtype, ui.dtype)` in pyMOTO tracks complexness;
+#   * in-place arithmetic of a real-content array with a complex operand raises the UFuncTypeError
+#     NumPy raises for float64 (+)= complex128;
+#   * item assignment keeps the logical kind of the target (complex -> real discards the imaginary
+#     part as NumPy does for complex128 scalars/arrays; real -> complex is promoted).
+_LOGICAL = False
+_TAGGED = {}
+
+
+def enable_logical_dtype(on=True):
+    global _LOGICAL
+    _LOGICAL = bool(on)
+
+
+def logical_dtype_enabled():
+    return _LOGICAL
+
+
+def logical_kind_of_dtype(dt):
+    """'c' / 'f' for an object dtype tagged by SymArray.dtype, else None."""
+    md = getattr(dt, "metadata", None)
+    if md:
+        return md.get("symx")
+    return None
+
+
+def _tagged(kind):
+    d = _TAGGED.get(kind)
+    if d is None:
+        d = _TAGGED[kind] = np.dtype(object, metadata={"symx": kind})
+    return d
+
+
+def _cast_kind(val, to_complex):
+    def one(e):
+        if to_complex:
+            if isinstance(e, (R, bool, int, float, Fraction, np.integer, np.floating, np.bool_)):
+                return C.of(e)
+            return e
+        if isinstance(e, (C, complex, np.complexfloating)):
+            return e.real
+        return e
+    if isinstance(val, np.ndarray):
+        if val.dtype != object:
+            if to_complex or val.dtype.kind != "c":
+                return val
+            return val.real
+        out = np.empty(val.shape, dtype=object)
+        for i in np.ndindex(*val.shape):
+            out[i] = one(np.ndarray.__getitem__(val, i))
+        return out
+    if isinstance(val, (list, tuple)):
+        return val
+    return one(val)
+
+
+def _inplace_cast_check(self, other, ufunc):
+    if not _LOGICAL:
+        return
+    base = np.asarray(self)
+    if base.dtype != object or base.size == 0:
+        return
+    if not is_complex_content(base) and is_complex_content(other if not isinstance(other, SymArray) else np.asarray(other)):
+        from numpy._core._exceptions import _UFuncOutputCastingError
+        raise _UFuncOutputCastingError(ufunc, "same_kind", np.dtype(complex), np.dtype(float), 2)
+
+
 class SymArray(np.ndarray):
     """Object array of R / C / SB / exact numbers."""
 
     def __array_finalize__(self, obj):
         pass
+
+    @property
+    def dtype(self):
+        dt = np.ndarray.dtype.__get__(self)
+        if _LOGICAL and dt == object:
+            return _tagged("c" if is_complex_content(np.asarray(self)) else "f")
+        return dt
+
+    @dtype.setter
+    def dtype(self, v):
+        np.ndarray.dtype.__set__(self, v)
+
+    def __iadd__(self, o):
+        _inplace_cast_check(self, o, np.add)
+        return super().__iadd__(o)
+
+    def __isub__(self, o):
+        _inplace_cast_check(self, o, np.subtract)
+        return super().__isub__(o)
+
+    def __imul__(self, o):
+        _inplace_cast_check(self, o, np.multiply)
+        return super().__imul__(o)
 
     def __array_wrap__(self, arr, context=None, return_scalar=False):
         # reductions of an ndarray subclass give 0-d arrays; the base class gives the element itself
@@ -125,6 +220,10 @@ class SymArray(np.ndarray):
 
     def __setitem__(self, idx, val):
         idx = _concretize_index(idx)
+        if _LOGICAL:
+            base = np.asarray(self)
+            if base.dtype == object and base.size:
+                val = _cast_kind(val, is_complex_content(base))
         super().__setitem__(idx, val)
 
     def astype(self, dtype, *a, **k):
